@@ -209,10 +209,11 @@ pub fn gen_plan(run_seed: u64) -> Plan {
     // one run in 150 is a marathon: hundreds of calls on one instance (counters, caches and
     // anything else that only shows after many calls)
     let marathon = mode != Mode::Backstep && rng.chance(1, 150);
-    let flavor = match rng.weighted(&[3, 4, 3]) {
+    let flavor = match rng.weighted(&[6, 8, 6, 1]) {
         0 => Flavor::Dense,
         1 => Flavor::Sparse,
-        _ => Flavor::Grammar,
+        2 => Flavor::Grammar,
+        _ => Flavor::NearStep,
     };
     let (expr, sets) = gen_sat_expr(&mut rng, flavor);
     let start = gen_start(&mut rng, &sets);
